@@ -31,6 +31,13 @@
 //!              rejects; the session becomes older than session_timeout although it is in use; a
 //!              duplicate of A's first datagram makes B issue a second WHOAREYOU that expires); when the
 //!              application then responds (or drops the request object) the answer must reach A: C20, C04
+//!  * dual    - A listens on an IPv4 and an IPv6 socket (`DualStack`, or `FromSockets` with both), B4 is an
+//!              IPv4 node, B6 an IPv6-only node on ::1: PING / FINDNODE / TALK between A and B6 in both
+//!              directions (datagrams on A's second socket) while B4 talks to the first one: C05, C14, C20, C04
+//!
+//! In `basic` without adversity, TALK requests and responses whose datagram (on the established
+//! session) is exactly 1280, 1279 or 1278 bytes long - sizes from the real codec - must make the
+//! round trip like any other: C20, C04.
 //!
 //! Time: "not earlier than" statements are lower bounds on measured real time; a success has 5 s
 //! (request_timeout 2.5 s, two transmissions) before it counts as a failure, and "no outcome at all"
@@ -69,6 +76,8 @@ struct Env {
     multi_ip: bool,
     /// an IPv6 socket bound to [::] also receives IPv4 datagrams (mapped source)
     dual_stack: bool,
+    /// sockets can be bound to ::1 and datagrams sent there arrive
+    ipv6_loopback: bool,
 }
 
 fn probe_env() -> Env {
@@ -90,7 +99,17 @@ fn probe_env() -> Env {
         Some(mapped && back == SocketAddr::from((Ipv4Addr::LOCALHOST, p)))
     })()
     .unwrap_or(false);
-    Env { multi_ip, dual_stack }
+    let ipv6_loopback = (|| -> Option<bool> {
+        let r = StdUdp::bind((Ipv6Addr::LOCALHOST, 0)).ok()?;
+        r.set_read_timeout(Some(Duration::from_millis(500))).ok()?;
+        let s = StdUdp::bind((Ipv6Addr::LOCALHOST, 0)).ok()?;
+        s.send_to(b"probe", r.local_addr().ok()?).ok()?;
+        let mut buf = [0u8; 16];
+        let (n, from) = r.recv_from(&mut buf).ok()?;
+        Some(n == 5 && from.ip() == IpAddr::V6(Ipv6Addr::LOCALHOST))
+    })()
+    .unwrap_or(false);
+    Env { multi_ip, dual_stack, ipv6_loopback }
 }
 
 fn ip_for(env: Env, idx: u64, node: u8) -> Ipv4Addr {
@@ -227,6 +246,8 @@ enum Advert {
     MappedV6,
     /// IPv4 socket = listening socket, IPv6 socket = ::1 with the listening port
     BothLoopback,
+    /// only an IPv6 socket: ::1 with the listening port
+    V6Only,
 }
 
 fn key_from(rng: &mut Rng) -> CombinedKey {
@@ -273,6 +294,9 @@ fn make_enr(key: &CombinedKey, ip: Ipv4Addr, port: u16, adv: &Advert) -> Enr {
         }
         Advert::BothLoopback => {
             b.ip4(ip).udp4(port).ip6(Ipv6Addr::LOCALHOST).udp6(port);
+        }
+        Advert::V6Only => {
+            b.ip6(Ipv6Addr::LOCALHOST).udp6(port);
         }
     }
     b.build(key).expect("enr")
@@ -368,6 +392,11 @@ enum Listen {
     Wildcard6,
     /// `ListenConfig::FromSockets` with an IPv4 socket on 127.0.0.1 and an IPv6 socket bound to [::] on the next port
     Both,
+    /// `ListenConfig::Ipv6` on ::1
+    V6,
+    /// an IPv4 socket on the node's IP and an IPv6 socket on ::1 with the same port: `ListenConfig::DualStack`,
+    /// or (true) `ListenConfig::FromSockets` with two sockets the application bound
+    Dual(bool),
 }
 
 /// Starts a node; `None` after six occupied ports.
@@ -376,6 +405,22 @@ async fn start_node(idx: u64, node_no: u8, ip: Ipv4Addr, key: &CombinedKey, cfg:
         let port = port_for(idx, node_no as u64, attempt);
         let (listen_config, sock): (ListenConfig, SocketAddr) = match listen {
             Listen::V4 => (ListenConfig::Ipv4 { ip, port }, SocketAddr::from((ip, port))),
+            Listen::V6 => (ListenConfig::Ipv6 { ip: Ipv6Addr::LOCALHOST, port }, SocketAddr::from((Ipv6Addr::LOCALHOST, port))),
+            Listen::Dual(false) => (ListenConfig::DualStack { ipv4: ip, ipv4_port: port, ipv6: Ipv6Addr::LOCALHOST, ipv6_port: port }, SocketAddr::from((ip, port))),
+            Listen::Dual(true) => {
+                let mk = |a: SocketAddr| -> Option<Arc<tokio::net::UdpSocket>> {
+                    let s = StdUdp::bind(a).ok()?;
+                    s.set_nonblocking(true).ok()?;
+                    Some(Arc::new(tokio::net::UdpSocket::from_std(s).ok()?))
+                };
+                match (mk(SocketAddr::from((ip, port))), mk(SocketAddr::from((Ipv6Addr::LOCALHOST, port)))) {
+                    (Some(s4), Some(s6)) => (ListenConfig::FromSockets { ipv4: Some(s4), ipv6: Some(s6) }, SocketAddr::from((ip, port))),
+                    _ => {
+                        hist.add("e2e:bind_retries");
+                        continue;
+                    }
+                }
+            }
             Listen::Wildcard6 | Listen::Both => {
                 let mk6 = |p: u16| -> Option<Arc<tokio::net::UdpSocket>> {
                     let s = StdUdp::bind((Ipv6Addr::UNSPECIFIED, p)).ok()?;
@@ -649,11 +694,79 @@ fn gen_talk(rng: &mut Rng, tag: u64) -> Op {
     Op::Talk { enr_less: rng.chance(1, 3), proto, body, behave }
 }
 
+/// The size of the datagram that carries `msg` on an established session, from the real codec
+/// (`Message::encode`, 16 bytes of authentication tag, `Packet::encode` of a message packet).
+fn session_datagram_len(msg: discv5::verif::rpc::Message) -> usize {
+    use discv5::verif::packet::{packet_encode, KindDesc, PacketDesc};
+    let m = msg.encode();
+    let desc = PacketDesc { iv: 0, message_nonce: [0; 12], kind: KindDesc::Message { src_id: [1; 32] }, message: vec![0; m.len() + 16] };
+    packet_encode(&desc, &[2; 32]).len()
+}
+
+/// request ids of the service are 8 bytes (`RequestId::random`)
+fn talk_req_datagram_len(proto: &[u8], body_len: usize) -> usize {
+    use discv5::verif::rpc::{Message, Request, RequestBody, RequestId};
+    session_datagram_len(Message::Request(Request { id: RequestId(vec![0xAB; 8]), body: RequestBody::Talk { protocol: proto.to_vec(), request: vec![0x55; body_len] } }))
+}
+
+fn talk_resp_datagram_len(payload_len: usize) -> usize {
+    use discv5::verif::rpc::{Message, RequestId, Response, ResponseBody};
+    session_datagram_len(Message::Response(Response { id: RequestId(vec![0xAB; 8]), body: ResponseBody::Talk { response: vec![0x55; payload_len] } }))
+}
+
+/// the length in 600..1300 for which `len_of` gives exactly `target`
+fn length_for(target: usize, len_of: impl Fn(usize) -> usize) -> Option<usize> {
+    let base = len_of(1000);
+    let guess = (1000 + target).checked_sub(base)?;
+    if len_of(guess) == target {
+        return Some(guess);
+    }
+    (600..1300).find(|n| len_of(*n) == target)
+}
+
+/// A TALK round trip on an established session whose request and / or response fill a datagram up
+/// to the maximum packet size (1280 bytes) or stay one or two bytes below it.
+fn gen_talk_limit(rng: &mut Rng, tag: u64, exact: bool) -> Op {
+    let plen = rng.range(0, 8) as usize;
+    let proto = rng.bytes(plen);
+    let which = rng.weighted(&[2, 4, 2]);
+    let (big_req, big_resp) = (which != 1, which != 0);
+    let pick_target = |rng: &mut Rng| 1280 - if exact { 0 } else { rng.weighted(&[3, 1, 1]) };
+    let mut body = vec![0xE2, tag as u8];
+    let n_req = if big_req {
+        let t = pick_target(rng);
+        length_for(t, |n| talk_req_datagram_len(&proto, n)).unwrap_or(900)
+    } else {
+        2 + rng.range(0, 40) as usize
+    };
+    body.extend(rng.bytes(n_req.saturating_sub(2)));
+    let n_resp = if big_resp {
+        let t = pick_target(rng);
+        length_for(t, talk_resp_datagram_len).unwrap_or(900)
+    } else {
+        rng.range(0, 40) as usize
+    };
+    let resp = rng.bytes(n_resp);
+    let behave = if rng.chance(3, 4) { Behave::Respond(resp) } else { Behave::RespondLate(rng.range(50, 400), resp) };
+    Op::Talk { enr_less: rng.chance(1, 3), proto, body, behave }
+}
+
+/// the sizes of the datagrams of a TALK round trip on an established session (for the report)
+fn talk_sizes_text(proto: &[u8], body: &[u8], behave: &Behave) -> String {
+    let resp = match behave {
+        Behave::Respond(p) | Behave::RespondLate(_, p) => format!(", the TALKRESP with the application's payload one of {} bytes", talk_resp_datagram_len(p.len())),
+        _ => String::new(),
+    };
+    format!("on an established session the TALKREQ is a datagram of {} bytes{}; the maximum packet size is 1280 bytes", talk_req_datagram_len(proto, body.len()), resp)
+}
+
 fn gen_basic(rng: &mut Rng, idx: u64, focus: Option<&str>) -> BasicPlan {
+    // the first case under focus C20: no adversity, a TALK round trip with a datagram of exactly the maximum packet size
+    let opening = focus == Some("C20") && idx == 0;
     let adverse = match focus {
         Some("C13") | Some("C04") => rng.chance(4, 5),
         _ => rng.chance(1, 3),
-    };
+    } && !opening;
     let adv = if adverse {
         match rng.weighted(&[3, 2, 2, 2, 2]) {
             0 => Adv::BanIp,
@@ -689,6 +802,16 @@ fn gen_basic(rng: &mut Rng, idx: u64, focus: Option<&str>) -> BasicPlan {
         let at = rng.below(ops.len() as u64) as usize;
         ops.insert(at, Op::PeerPings(3));
     }
+    // TALK round trips that fill a datagram: only on an established session (a handshake packet
+    // with such a message would exceed the maximum packet size), so a PING comes first
+    let limit_talks = if adv == Adv::None && (rng.chance(if focus == Some("C20") { 2 } else { 1 }, 3) || opening) { rng.range(1, 2) } else { 0 };
+    if limit_talks > 0 {
+        ops.insert(0, Op::Ping);
+        for j in 0..limit_talks {
+            let at = rng.range(1, ops.len() as u64) as usize;
+            ops.insert(at, gen_talk_limit(rng, 100 + j, opening && j == 0));
+        }
+    }
     let n_table = rng.range(0, 6);
     let table = (0..n_table)
         .map(|i| {
@@ -696,7 +819,7 @@ fn gen_basic(rng: &mut Rng, idx: u64, focus: Option<&str>) -> BasicPlan {
             make_enr(&k, Ipv4Addr::new(10, (idx % 200) as u8, i as u8, 1), 9000 + i as u16, &Advert::Honest)
         })
         .collect();
-    BasicPlan { a_cfg, ban_at: if adv.bans() { rng.below(2) as usize } else { 0 }, adv, b_app: rng.chance(5, 6), table, key_a: key_from(rng), key_b: key_from(rng), ops }
+    BasicPlan { a_cfg, ban_at: if adv.bans() { rng.below(2) as usize } else { 0 }, adv, b_app: rng.chance(5, 6) || limit_talks > 0, table, key_a: key_from(rng), key_b: key_from(rng), ops }
 }
 
 fn log2_distance(a: &NodeId, b: &NodeId) -> u64 {
@@ -734,14 +857,31 @@ fn lost_after_sendfail(what: &str, hung: bool) -> String {
     format!("{} {} although both nodes are alive: the datagram followed one that the send task of the node under test could not send (another destination); every datagram a node puts on the wire is the encoding of the packet for its destination, whatever happened to earlier ones", what, if hung { "had no outcome at all" } else { "failed" })
 }
 
+/// The stable text of a failed round trip whose datagrams arrive on the second socket of a node
+/// that listens on two.
+fn lost_second_socket(what: &str, hung: bool) -> String {
+    format!("{} {} although both nodes are alive: one of the two listens on an IPv4 and an IPv6 socket and the datagrams of this exchange arrive on its IPv6 socket (a peer on the IPv4 socket is served at the same time); a datagram is decoded as it arrived, whichever socket it arrived on", what, if hung { "had no outcome at all" } else { "failed" })
+}
+
+#[derive(Clone, Copy, PartialEq, Eq)]
+enum LostCtx {
+    Plain,
+    AfterSendfail,
+    SecondSocket,
+}
+
 /// The checks of one TALK round trip (requester's side and the serving application's side).
 fn check_talk(out: &mut CaseOut, who: &str, extra: &[&'static str], adversity: &str, r: Outcome<Vec<u8>>, dt: Duration, body: &[u8], proto: &[u8], behave: &Behave, app_reads: bool, app: &Arc<Mutex<App>>, requester: NodeId) {
-    check_talk_ctx(out, who, extra, adversity, r, dt, body, proto, behave, app_reads, app, requester, false)
+    check_talk_ctx(out, who, extra, adversity, r, dt, body, proto, behave, app_reads, app, requester, LostCtx::Plain)
 }
 
 #[allow(clippy::too_many_arguments)]
-fn check_talk_ctx(out: &mut CaseOut, who: &str, extra: &[&'static str], adversity: &str, r: Outcome<Vec<u8>>, dt: Duration, body: &[u8], proto: &[u8], behave: &Behave, app_reads: bool, app: &Arc<Mutex<App>>, requester: NodeId, after_sendfail: bool) {
-    let lost = |hung: bool| if after_sendfail { lost_after_sendfail(&format!("TALK request of {}", who), hung) } else { lost_class(&format!("TALK request of {}", who), !extra.is_empty(), hung) };
+fn check_talk_ctx(out: &mut CaseOut, who: &str, extra: &[&'static str], adversity: &str, r: Outcome<Vec<u8>>, dt: Duration, body: &[u8], proto: &[u8], behave: &Behave, app_reads: bool, app: &Arc<Mutex<App>>, requester: NodeId, ctx: LostCtx) {
+    let lost = |hung: bool| match ctx {
+        LostCtx::AfterSendfail => lost_after_sendfail(&format!("TALK request of {}", who), hung),
+        LostCtx::SecondSocket => lost_second_socket(&format!("TALK request of {}", who), hung),
+        LostCtx::Plain => lost_class(&format!("TALK request of {}", who), !extra.is_empty(), hung),
+    };
     let expected: Vec<u8> = match behave {
         _ if !app_reads => vec![],
         Behave::Respond(p) | Behave::RespondLate(_, p) => p.clone(),
@@ -883,7 +1023,13 @@ async fn run_basic(env: Env, idx: u64, p: BasicPlan) -> CaseOut {
                 b.app.lock().plan.insert(body.clone(), behave.clone());
                 let contact = if *enr_less { NodeContact::new(b.enr.public_key(), b.sock, None) } else { NodeContact::new(b.enr.public_key(), b.sock, Some(b.enr.clone())) };
                 let (r, dt) = call(wait, a.disc.talk_req(contact, proto.clone(), body.clone())).await;
-                check_talk(&mut out, "A", extra, adversity, r, dt, body, proto, behave, p.b_app, &b.app, a.id);
+                let mut adversity = adversity.to_string();
+                if body.len() > 1000 || matches!(behave, Behave::Respond(x) | Behave::RespondLate(_, x) if x.len() > 1000) {
+                    out.hist.add("e2e:basic_talk_datagram_at_the_maximum_packet_size");
+                    out.observed.push(talk_sizes_text(proto, body, behave));
+                    adversity = format!("{}; {}", adversity, talk_sizes_text(proto, body, behave));
+                }
+                check_talk(&mut out, "A", extra, &adversity, r, dt, body, proto, behave, p.b_app, &b.app, a.id);
             }
             Op::PeerPings(n) => {
                 for _ in 0..*n {
@@ -1702,7 +1848,7 @@ async fn round_trip_after_sendfail(out: &mut CaseOut, from_name: &str, from: &No
             let contact = NodeContact::new(to.enr.public_key(), to.sock, if *enr_less { None } else { Some(to.enr.clone()) });
             let (r, dt) = call(wait, from.disc.talk_req(contact, proto.clone(), body.clone())).await;
             let extra: Vec<&'static str> = lost_props.iter().filter(|p| **p != "C20" && **p != "C04").cloned().collect();
-            check_talk_ctx(out, from_name, &extra, detail, r, dt, body, proto, behave, true, &to.app, from.id, true);
+            check_talk_ctx(out, from_name, &extra, detail, r, dt, body, proto, behave, true, &to.app, from.id, LostCtx::AfterSendfail);
         }
         Op::PeerPings(_) => {}
     }
@@ -2399,19 +2545,219 @@ async fn run_timeout_stream(env: Env, idx: u64, p: HeldPlan) -> CaseOut {
 }
 
 // ------------------------------------------------------------------------------------------------
+// kind `dual`
 
-fn kind_weights(focus: Option<&str>) -> [u64; 8] {
+struct DualOp {
+    /// the peer is B6 (the exchange uses A's IPv6 socket), otherwise B4
+    six: bool,
+    /// A is the requester
+    a_requests: bool,
+    op: Op,
+    /// PINGs of B4 to A (not awaited) right before the operation: A's IPv4 socket receives
+    /// datagrams in between the ones of the exchange on the IPv6 socket
+    noise: u64,
+}
+
+struct DualPlan {
+    key_a: CombinedKey,
+    key_b4: CombinedKey,
+    key_b6: CombinedKey,
+    filter: bool,
+    /// A's two sockets are bound by the application (`FromSockets`) instead of `DualStack`
+    from_sockets: bool,
+    /// A PING in each direction with each peer first (every session exists before the list)
+    warm: bool,
+    ops: Vec<DualOp>,
+}
+
+fn gen_dual(rng: &mut Rng, focus: Option<&str>) -> DualPlan {
+    let n = rng.range(4, 7);
+    let w: [u64; 3] = match focus {
+        Some("C20") => [1, 1, 5],
+        Some("C14") => [3, 3, 1],
+        _ => [2, 2, 2],
+    };
+    let mut ops = vec![];
+    for k in 0..n {
+        let op = match rng.weighted(&w) {
+            0 => Op::Ping,
+            1 => Op::FindNode(gen_distances(rng)),
+            _ => gen_talk(rng, k),
+        };
+        let six = rng.chance(2, 3);
+        ops.push(DualOp { six, a_requests: rng.chance(1, 2), op, noise: if six && rng.chance(1, 2) { rng.range(1, 3) } else { 0 } });
+    }
+    // both directions through the IPv6 socket, the IPv4 peer in between
+    ops[0].six = true;
+    ops[1].six = false;
+    ops[1].noise = 0;
+    ops[2].six = true;
+    ops[2].a_requests = !ops[0].a_requests;
+    DualPlan { key_a: key_from(rng), key_b4: key_from(rng), key_b6: key_from(rng), filter: rng.chance(1, 2), from_sockets: rng.chance(1, 3), warm: rng.chance(1, 3), ops }
+}
+
+/// A request of `from` to the live node `to` (addressed at `to_sock`, which sees the requester as
+/// `seen_as`); `second` = the datagrams of the exchange use the IPv6 socket of the dual-socket node.
+#[allow(clippy::too_many_arguments)]
+async fn round_trip_dual(out: &mut CaseOut, from_name: &str, from: &Node, to: &Node, to_sock: SocketAddr, seen_as: SocketAddr, op: &Op, wait: Duration, second: bool, detail: &str) {
+    let lost = |what: &str, hung: bool| if second { lost_second_socket(&format!("{} of {}", what, from_name), hung) } else { lost_class(&format!("{} of {}", what, from_name), false, hung) };
+    let lost_props: &[&'static str] = match (second, matches!(op, Op::Talk { .. })) {
+        (true, false) => &["C05", "C14", "C04"],
+        (true, true) => &["C05", "C20", "C04"],
+        (false, false) => &["C14", "C04"],
+        (false, true) => &["C20", "C04"],
+    };
+    match op {
+        Op::Ping => {
+            let (r, dt) = call(wait, from.disc.send_ping(to.enr.clone())).await;
+            match r {
+                Outcome::Ok(pong) => {
+                    out.observed.push(format!("-> Ok(PONG seq {} ip {} port {}) after {} ms", pong.enr_seq, pong.ip, pong.port, dt.as_millis()));
+                    let seq = to.disc.local_enr().seq();
+                    if SocketAddr::new(pong.ip, pong.port) != seen_as || pong.enr_seq != seq {
+                        out.fail(&["C14"], "PONG does not carry the responder's sequence number and exactly the source the PING came from", format!("PING from {} to a node with seq {}: PONG seq {} ip {} port {}", seen_as, seq, pong.enr_seq, pong.ip, pong.port));
+                    }
+                }
+                Outcome::Err(e) => {
+                    out.observed.push(format!("-> Err({}) after {} ms", e, dt.as_millis()));
+                    out.fail(lost_props, lost("PING", false), format!("{} after {} ms ({})", e, dt.as_millis(), detail));
+                }
+                Outcome::Hung => {
+                    out.observed.push(format!("-> no outcome after {} ms", dt.as_millis()));
+                    out.fail(lost_props, lost("PING", true), format!("waited {} ms ({})", dt.as_millis(), detail));
+                }
+            }
+        }
+        Op::FindNode(ds) => {
+            // other exchanges of the case may put a peer into the table meanwhile: the table before and after
+            let at = |t: &Node| -> Vec<Enr> { t.disc.table_entries_enr().into_iter().filter(|e| e.node_id() != from.id && ds.contains(&log2_distance(&t.id, &e.node_id()))).collect() };
+            let before = at(to);
+            let (r, dt) = call(wait, from.disc.find_node_designated_peer(to.enr.clone(), ds.clone())).await;
+            match r {
+                Outcome::Ok(nodes) => {
+                    let after = at(to);
+                    let key = |e: &Enr| (e.node_id().raw(), e.seq(), e.to_base64());
+                    let own = to.disc.local_enr();
+                    let mut must: Vec<_> = before.iter().filter(|e| after.iter().any(|x| key(x) == key(e))).map(key).collect();
+                    let mut may: Vec<_> = before.iter().chain(after.iter()).map(key).collect();
+                    if ds.contains(&0) {
+                        must.push(key(&own));
+                        may.push(key(&own));
+                    }
+                    let got: Vec<_> = nodes.iter().map(key).collect();
+                    let distinct: BTreeSet<_> = got.iter().cloned().collect();
+                    out.observed.push(format!("-> Ok({:?}) after {} ms", enr_set(&nodes), dt.as_millis()));
+                    if distinct.len() != got.len() || got.iter().any(|g| !may.contains(g)) || must.iter().any(|m| !got.contains(m)) {
+                        let mut expected = after.clone();
+                        if ds.contains(&0) {
+                            expected.push(own);
+                        }
+                        out.fail(&["C14"], "FINDNODE answer is not exactly the table entries at the requested distances (own record iff distance 0, never the requester)", format!("distances {:?}: expected {:?} (table before the request: {:?}) received {:?}", ds, enr_set(&expected), enr_set(&before), enr_set(&nodes)));
+                    }
+                }
+                Outcome::Err(e) => {
+                    out.observed.push(format!("-> Err({}) after {} ms", e, dt.as_millis()));
+                    out.fail(lost_props, lost("FINDNODE", false), format!("{} after {} ms ({})", e, dt.as_millis(), detail));
+                }
+                Outcome::Hung => {
+                    out.observed.push(format!("-> no outcome after {} ms", dt.as_millis()));
+                    out.fail(lost_props, lost("FINDNODE", true), format!("waited {} ms ({})", dt.as_millis(), detail));
+                }
+            }
+        }
+        Op::Talk { enr_less, proto, body, behave } => {
+            to.app.lock().plan.insert(body.clone(), behave.clone());
+            let contact = NodeContact::new(to.enr.public_key(), to_sock, if *enr_less { None } else { Some(to.enr.clone()) });
+            let (r, dt) = call(wait, from.disc.talk_req(contact, proto.clone(), body.clone())).await;
+            let extra: &[&'static str] = if second { &["C05"] } else { &[] };
+            check_talk_ctx(out, from_name, extra, detail, r, dt, body, proto, behave, true, &to.app, from.id, if second { LostCtx::SecondSocket } else { LostCtx::Plain });
+        }
+        Op::PeerPings(_) => {}
+    }
+}
+
+async fn run_dual(env: Env, idx: u64, p: DualPlan) -> CaseOut {
+    let mut out = CaseOut::new("dual");
+    if !env.ipv6_loopback {
+        return out.skipped("no_ipv6_loopback");
+    }
+    out.variant = format!("{}{}{}", if p.from_sockets { "FromSockets" } else { "DualStack" }, if p.warm { ", sessions first" } else { "" }, if p.filter { ", filter on" } else { ", filter off" });
+    let (ip_a, ip_b4) = (ip_for(env, idx, 1), ip_for(env, idx, 2));
+    let mut a_cfg = Cfg::generous();
+    a_cfg.filter = p.filter;
+    let b_cfg = Cfg::generous();
+    let mut hist = Hist::default();
+    let a = start_node(idx, 1, ip_a, &p.key_a, &a_cfg, &Advert::BothLoopback, Listen::Dual(p.from_sockets), &mut hist).await;
+    let b4 = start_node(idx, 2, ip_b4, &p.key_b4, &b_cfg, &Advert::Honest, Listen::V4, &mut hist).await;
+    let b6 = start_node(idx, 3, ip_b4, &p.key_b6, &b_cfg, &Advert::V6Only, Listen::V6, &mut hist).await;
+    out.hist = hist;
+    let (a, b4, b6) = match (a, b4, b6) {
+        (Some(a), Some(b4), Some(b6)) => (a, b4, b6),
+        _ => return out.skipped("bind_failed"),
+    };
+    if !a.attach_app().await || !b4.attach_app().await || !b6.attach_app().await {
+        return out.skipped("no_event_stream");
+    }
+    let a6 = SocketAddr::from((Ipv6Addr::LOCALHOST, a.sock.port()));
+    out.config.push(format!("A: {}, {}; listens on {} (first socket) and {} (second socket); its record advertises both", if p.from_sockets { "ListenConfig::FromSockets with an IPv4 and an IPv6 socket" } else { "ListenConfig::DualStack" }, a_cfg.text(), a.sock, a6));
+    out.config.push(format!("B4: ListenConfig::Ipv4, {}; listens on {}", b_cfg.text(), b4.sock));
+    out.config.push(format!("B6: ListenConfig::Ipv6, {}; listens on {}; its record advertises only that socket; all applications read their event streams", b_cfg.text(), b6.sock));
+    let wait = a_cfg.give_up() + Duration::from_secs(3);
+    let mut list: Vec<DualOp> = vec![];
+    if p.warm {
+        for (six, a_requests) in [(false, true), (true, true), (false, false), (true, false)] {
+            list.push(DualOp { six, a_requests, op: Op::Ping, noise: 0 });
+        }
+    }
+    list.extend(p.ops);
+    for dop in &list {
+        if out.failures.iter().any(|f| f.props.contains(&"C04")) {
+            break;
+        }
+        let (peer, peer_name) = if dop.six { (&b6, "B6") } else { (&b4, "B4") };
+        if dop.noise > 0 {
+            out.ops.push(format!("B4.send_ping(A) x {} (not awaited)", dop.noise));
+            for _ in 0..dop.noise {
+                let f = b4.disc.send_ping(a.enr.clone());
+                tokio::spawn(async move {
+                    let _ = within(Duration::from_secs(6), f).await;
+                });
+                tokio::task::yield_now().await;
+            }
+        }
+        let text = if dop.a_requests { op_text_between(&dop.op, "A", peer_name) } else { op_text_between(&dop.op, peer_name, "A") };
+        out.ops.push(text.clone());
+        out.observed.push(format!("{}:", text));
+        out.hist.add(if dop.six { "e2e:dual_exchange_through_the_second_socket" } else { "e2e:dual_exchange_through_the_first_socket" });
+        let detail = if dop.six { "the exchange uses A's IPv6 socket" } else { "the exchange uses A's IPv4 socket" };
+        if dop.a_requests {
+            let seen_as = if dop.six { a6 } else { a.sock };
+            round_trip_dual(&mut out, "A", &a, peer, peer.sock, seen_as, &dop.op, wait, dop.six, detail).await;
+        } else {
+            let to_sock = if dop.six { a6 } else { a.sock };
+            round_trip_dual(&mut out, peer_name, peer, &a, to_sock, peer.sock, &dop.op, wait, dop.six, detail).await;
+        }
+    }
+    drop(a);
+    drop(b4);
+    drop(b6);
+    out
+}
+
+// ------------------------------------------------------------------------------------------------
+
+fn kind_weights(focus: Option<&str>) -> [u64; 9] {
     match focus {
-        Some("C03") => [2, 0, 0, 0, 3, 6, 0, 0],
-        Some("C04") => [5, 5, 2, 0, 1, 0, 2, 3],
-        Some("C05") => [1, 0, 0, 0, 0, 0, 8, 0],
-        Some("C09") | Some("C10") => [1, 1, 8, 0, 0, 0, 0, 0],
-        Some("C12") => [2, 0, 0, 0, 7, 1, 0, 0],
-        Some("C13") => [8, 1, 0, 0, 1, 0, 0, 0],
-        Some("C14") => [5, 0, 0, 1, 4, 1, 3, 2],
-        Some("C17") => [2, 0, 0, 8, 0, 0, 0, 0],
-        Some("C20") => [7, 0, 0, 0, 3, 0, 2, 4],
-        _ => [5, 2, 2, 2, 2, 1, 2, 2],
+        Some("C03") => [2, 0, 0, 0, 3, 6, 0, 0, 0],
+        Some("C04") => [5, 5, 2, 0, 1, 0, 2, 3, 2],
+        Some("C05") => [1, 0, 0, 0, 0, 0, 8, 0, 6],
+        Some("C09") | Some("C10") => [1, 1, 8, 0, 0, 0, 0, 0, 0],
+        Some("C12") => [2, 0, 0, 0, 7, 1, 0, 0, 0],
+        Some("C13") => [8, 1, 0, 0, 1, 0, 0, 0, 0],
+        Some("C14") => [5, 0, 0, 1, 4, 1, 3, 2, 3],
+        Some("C17") => [2, 0, 0, 8, 0, 0, 0, 0, 0],
+        Some("C20") => [7, 0, 0, 0, 3, 0, 2, 4, 3],
+        _ => [5, 2, 2, 2, 2, 1, 2, 2, 2],
     }
 }
 
@@ -2447,6 +2793,7 @@ async fn run_case(env: Env, seed: u64, idx: u64, focus: Option<String>) -> CaseO
         4 => run_mapped(env, idx, gen_mapped(&mut rng, idx)).await,
         5 => run_crossed(env, idx, gen_crossed(&mut rng)).await,
         6 => run_sendfail(env, idx, gen_sendfail(&mut rng, focus)).await,
+        8 => run_dual(env, idx, gen_dual(&mut rng, focus)).await,
         _ => run_held(env, idx, gen_held(&mut rng, sub, focus)).await,
     }
 }
@@ -2483,11 +2830,12 @@ pub fn main(args: &[String]) {
         Some(x) => vec![x],
         None => (0..o.cases).collect(),
     };
-    for k in ["e2e:bind_retries", "e2e:case_panicked", "e2e:case_hung", "e2e:vote_record_moved", "e2e:vote_no_update_although_the_minimum_voted", "e2e:case_skipped_bind_failed", "e2e:case_skipped_no_dual_stack_sockets", "e2e:held_inconclusive_machine_too_slow"] {
+    for k in ["e2e:bind_retries", "e2e:case_panicked", "e2e:case_hung", "e2e:vote_record_moved", "e2e:vote_no_update_although_the_minimum_voted", "e2e:case_skipped_bind_failed", "e2e:case_skipped_no_dual_stack_sockets", "e2e:case_skipped_no_ipv6_loopback", "e2e:dual_exchange_through_the_second_socket", "e2e:basic_talk_datagram_at_the_maximum_packet_size", "e2e:held_inconclusive_machine_too_slow"] {
         sum.hist.addn(k, 0);
     }
     sum.hist.addn("e2e:env_any_loopback_address", env.multi_ip as u64);
     sum.hist.addn("e2e:env_dual_stack_sockets", env.dual_stack as u64);
+    sum.hist.addn("e2e:env_ipv6_loopback", env.ipv6_loopback as u64);
     let rt = tokio::runtime::Builder::new_multi_thread().worker_threads(4).enable_all().build().unwrap();
     *discv5::verif::filter::PERMIT_BAN_LIST.write() = Default::default();
     let seed = o.seed;
@@ -2580,7 +2928,7 @@ pub fn main(args: &[String]) {
         }
     }
     sum.case_files = vec![];
-    sum.rule = "real nodes on loopback UDP sockets in real time, assembled through the public API (ConfigBuilder -> Discv5::new -> Discv5::start -> the real Service::spawn / Handler::spawn / Socket::new); each node of a case has its own address 127.x.y.z (x, y from the case number) so that bans by IP stay inside the case; keys, payloads, distances, configurations and operation lists from the case PRNG; kinds: basic (A and B: 3..7 of PING / FINDNODE at random distance lists against 0..6 generated records in B's table / TALK with respond, drop, late respond, ENR-less contact, B without event stream; in a third of the cases - four fifths under focus C13 / C04 - A's application bans B's IP and / or node id before the first or second operation, or A's filter has a limit of one unsolicited packet per IP / node in 20 s and B sends PINGs), silent (a request to a bound socket that never answers, request_timeout 300..600 ms, 0..2 retries, query_peer_timeout a quarter or eight times the request timeout), lookup (find_node over 3..7 silent candidates and optionally one live node, request_timeout 300..450 ms, parallelism 2..3, query_peer_timeout 100..200 ms or four request periods, query_timeout 60 s or 500..800 ms), vote (enr_peer_update_min 2..4 honest voters, A's record advertises nothing or another port), mapped (A on an application-supplied dual-stack IPv6 socket, B an IPv4 node whose record carries only its IPv4 socket, a foreign IPv6 socket or its mapped address), crossed (A with an IPv4 and a dual-stack IPv6 socket behind a forwarder that delivers the handshake to the other socket; controls through one socket), sendfail (2..4 rounds: A is handed a PING / FINDNODE / TALK / table entry + lookup for a destination its send task cannot send to - an IPv6 socket address in an application-built contact of an IPv4-only node, or an IPv4 destination that a probe socket on A's address is refused by the OS: limited and loopback broadcast, class E, an unroutable network, port 0 - and 5..80 ms later A sends a PING / FINDNODE / TALK to the live node B, or B sends one to A, or A sends one to a plain UDP listener that decodes every datagram of A with the node id it was addressed to; with and without an established session), held (B's application holds a TALK request of A, which transmits once and waits 8 s; meanwhile B's own FINDNODE [300] to A, which A's decoder rejects, times out for good (request_timeout 300..500 ms, one transmission), or A sends B a FINDNODE [300], or the session, established by an earlier TALK and used by the held one at 60 % of session_timeout 4 s at A, B or both, becomes older than that, or a forwarder delivers 2..4 duplicates of A's first datagram right before A's handshake so that B may issue a second WHOAREYOU next to the new session that expires unanswered; then the application responds or drops the request object and A must receive exactly that within 5 s); the first cases of a run go through the kinds in the order of their weight for the focused property and then through the four disturbances of held, the rest is drawn; monitors state lower bounds on time only, every success has 5 s (request_timeout 2.5 s, two transmissions) before it counts as a failure; non-trivial = at least one operation; distinct = new (kind, variant)".to_string();
+    sum.rule = "real nodes on loopback UDP sockets in real time, assembled through the public API (ConfigBuilder -> Discv5::new -> Discv5::start -> the real Service::spawn / Handler::spawn / Socket::new); each node of a case has its own address 127.x.y.z (x, y from the case number) so that bans by IP stay inside the case; keys, payloads, distances, configurations and operation lists from the case PRNG; kinds: basic (A and B: 3..7 of PING / FINDNODE at random distance lists against 0..6 generated records in B's table / TALK with respond, drop, late respond, ENR-less contact, B without event stream; in a third of the cases - four fifths under focus C13 / C04 - A's application bans B's IP and / or node id before the first or second operation, or A's filter has a limit of one unsolicited packet per IP / node in 20 s and B sends PINGs), silent (a request to a bound socket that never answers, request_timeout 300..600 ms, 0..2 retries, query_peer_timeout a quarter or eight times the request timeout), lookup (find_node over 3..7 silent candidates and optionally one live node, request_timeout 300..450 ms, parallelism 2..3, query_peer_timeout 100..200 ms or four request periods, query_timeout 60 s or 500..800 ms), vote (enr_peer_update_min 2..4 honest voters, A's record advertises nothing or another port), mapped (A on an application-supplied dual-stack IPv6 socket, B an IPv4 node whose record carries only its IPv4 socket, a foreign IPv6 socket or its mapped address), crossed (A with an IPv4 and a dual-stack IPv6 socket behind a forwarder that delivers the handshake to the other socket; controls through one socket), sendfail (2..4 rounds: A is handed a PING / FINDNODE / TALK / table entry + lookup for a destination its send task cannot send to - an IPv6 socket address in an application-built contact of an IPv4-only node, or an IPv4 destination that a probe socket on A's address is refused by the OS: limited and loopback broadcast, class E, an unroutable network, port 0 - and 5..80 ms later A sends a PING / FINDNODE / TALK to the live node B, or B sends one to A, or A sends one to a plain UDP listener that decodes every datagram of A with the node id it was addressed to; with and without an established session), held (B's application holds a TALK request of A, which transmits once and waits 8 s; meanwhile B's own FINDNODE [300] to A, which A's decoder rejects, times out for good (request_timeout 300..500 ms, one transmission), or A sends B a FINDNODE [300], or the session, established by an earlier TALK and used by the held one at 60 % of session_timeout 4 s at A, B or both, becomes older than that, or a forwarder delivers 2..4 duplicates of A's first datagram right before A's handshake so that B may issue a second WHOAREYOU next to the new session that expires unanswered; then the application responds or drops the request object and A must receive exactly that within 5 s), dual (A on ListenConfig::DualStack or FromSockets with an IPv4 socket 127.x.y.1 and an IPv6 socket ::1, B4 an IPv4 node, B6 an IPv6-only node on ::1: 4..7 PING / FINDNODE / TALK round trips in both directions, two thirds with B6 - the first and third always, in opposite directions, the second with B4 - half of those right after 1..3 not awaited PINGs of B4 to A; optionally a PING in each direction with each peer first); in basic cases without adversity, a third (two thirds under focus C20) get a leading PING and 1..2 TALK round trips whose request and / or response datagram on the session is 1280, 1279 or 1278 bytes long (lengths computed with the real Message::encode and Packet::encode for the 8-byte request ids of the service; the first case under focus C20 is such a case with one of them exactly 1280 bytes); the first cases of a run go through the kinds in the order of their weight for the focused property and then through the four disturbances of held, the rest is drawn; monitors state lower bounds on time only, every success has 5 s (request_timeout 2.5 s, two transmissions) before it counts as a failure; non-trivial = at least one operation; distinct = new (kind, variant)".to_string();
     sum.write(&o.out);
     println!(
         "e2e{}: {} cases, {} operations, {} distinct non-trivial, {} monitor failure signatures",
